@@ -158,8 +158,12 @@ def write_results(results):
     groups = [
         ("The four repaired defects re-introduced, and the non-termination test mutant (`/verif/mutants/`)", lambda n: n[0] in "DT"),
         ("Seeded by independent sub-agents, first round (`/verif/seeded/CNN-k`)", lambda n: n.startswith("C") and "w" not in n),
-        ("Second round (`CNNw2-k`)", lambda n: n.startswith("C") and "w2" in n),
-        ("Third round (`CNNw4-k`)", lambda n: n.startswith("C") and "w4" in n),
+        ("Second round (`CNNw2-k`)", lambda n: n.startswith("C") and n[3:].split("-")[0] == "w2"),
+        ("Third round (`CNNw4-k`)", lambda n: n.startswith("C") and n[3:].split("-")[0] == "w4"),
+    ] + [
+        ("%s round (`CNN%s-k`)" % (nm, w), (lambda w: lambda n: n.startswith("C") and n[3:].split("-")[0] == w)(w))
+        for nm, w in [("Fourth", "w5"), ("Fifth", "w6"), ("Sixth", "w7"), ("Seventh", "w8"), ("Eighth", "w9"), ("Ninth", "w10"), ("Tenth", "w11"), ("Eleventh", "w12")]
+    ] + [
         ("Behaviour-preserving refactorings (`/verif/benign/`): every check must stay silent", lambda n: n.startswith("benign-")),
         ("Mechanical single-token mutants that survive the repository's own tests (`/verif/mechanical/`, run until the first check fires)", lambda n: n.startswith("mech-")),
     ]
